@@ -97,3 +97,36 @@ example : Graph exAdj 4 := by
 example : hasEq exAdj 4 0 2 = true ∧ hasEq exAdj 4 0 3 = false ∧ hasEq exAdj 4 1 1 = false ∧ areEq exAdj 4 1 1 = true := by decide
 
 end Cellml.Props.C18
+
+namespace Cellml.Props.C18
+open Cellml.Equiv
+
+/-! ### the queries as relations (corollaries of C18-1a / C18-1b) -/
+
+/-- C18-1c: the query itself behaves as an equivalence relation on the model's variables: the answer does
+    not depend on which variable is asked about which, and answers compose along chains -/
+theorem C18_areEq_refl (adj : Nat → List Nat) (n : Nat) (g : Graph adj n) (v : Nat) (hv : v < n) :
+    areEq adj n v v = true := (C18_areEquivalentVariables adj n g v v hv).mpr (Reach.refl v)
+
+theorem C18_areEq_symm (adj : Nat → List Nat) (n : Nat) (g : Graph adj n) (v w : Nat) (hv : v < n) (hw : w < n) :
+    areEq adj n v w = areEq adj n w v := by
+  rw [Bool.eq_iff_iff, C18_areEquivalentVariables adj n g v w hw, C18_areEquivalentVariables adj n g w v hv]
+  exact ⟨Reach.symm g.symm, Reach.symm g.symm⟩
+
+theorem C18_areEq_trans (adj : Nat → List Nat) (n : Nat) (g : Graph adj n) (u v w : Nat) (hv : v < n) (hw : w < n)
+    (h1 : areEq adj n u v = true) (h2 : areEq adj n v w = true) : areEq adj n u w = true :=
+  (C18_areEquivalentVariables adj n g u w hw).mpr
+    (Reach.trans ((C18_areEquivalentVariables adj n g u v hv).mp h1) ((C18_areEquivalentVariables adj n g v w hw).mp h2))
+
+theorem C18_hasEq_symm (adj : Nat → List Nat) (n : Nat) (g : Graph adj n) (v w : Nat) (hv : v < n) (hw : w < n) :
+    hasEq adj n v w = hasEq adj n w v := by
+  rw [Bool.eq_iff_iff, C18_hasEquivalentVariable adj n g v w hw, C18_hasEquivalentVariable adj n g w v hv]
+  exact ⟨fun ⟨a, b⟩ => ⟨fun e => a e.symm, Reach.symm g.symm b⟩, fun ⟨a, b⟩ => ⟨fun e => a e.symm, Reach.symm g.symm b⟩⟩
+
+/-- the two queries agree away from the diagonal -/
+theorem C18_hasEq_eq_areEq (adj : Nat → List Nat) (n : Nat) (g : Graph adj n) (v w : Nat) (hw : w < n) (hne : v ≠ w) :
+    hasEq adj n v w = areEq adj n v w := by
+  rw [Bool.eq_iff_iff, C18_hasEquivalentVariable adj n g v w hw, C18_areEquivalentVariables adj n g v w hw]
+  exact ⟨fun h => h.2, fun h => ⟨hne, h⟩⟩
+
+end Cellml.Props.C18
